@@ -25,6 +25,7 @@ anemo::middleware calls a mutating Request/Response method (classified from the 
 writes a header field, except on a message the library itself has just created.
 One layer out: Network::rpc only forwards to NetworkInner::rpc, and the router hands the handler the request it received (C16.1 re-evaluated).
 Each path is registered, and re-registered by merge, with its own handler (C16.3, C16.4 re-evaluated).
+Every tower Layer of the anemo crate (incl. the boxed per-method layer of generated servers) returns a service built directly around the inner service it was given.
 """
 TRUSTED = ["QUIC stream reliability/ordering under datagram loss, reordering, duplication (quinn)", "tower ServiceExt::oneshot calls the service once"]
 NOT_DECIDED = ["behaviour under datagram loss/reordering/duplication (inside quinn)", "interleavings of concurrent handlers (they share no mutable state by the ownership rules above)",
@@ -231,7 +232,7 @@ def run(cx):
         ob.require(mentions_field(t, "recv_stream") and mentions_upvar(t, "self"), "do_handle/own-recv", f"request read from {show(t)}", co.path)
         rq = arg_origin(one[0], 1, o)
         ob.require([x[3] for x in walk(rq) if x[0] == "call" and name_matches(x[1], f"{WIRE}::read_request")] == [rr[0].bb] and
-                   any(x[0] == "variant" and x[2] == "Continue" for x in walk(rq)), "do_handle/dispatches-read-request", f"service gets {show(rq)[:100]}", co.path)
+                   any(x[0] == "variant" and x[2] in ("Continue", "Ok") for x in walk(rq)), "do_handle/dispatches-read-request", f"service gets {show(rq)[:100]}", co.path)
         sv = arg_origin(one[0], 0, o)
         ob.require(mentions_field(sv, "service") and mentions_upvar(sv, "self"), "do_handle/own-service", f"service is {show(sv)}", co.path)
         wr = co.calls_to(f"{WIRE}::write_response")
@@ -357,3 +358,20 @@ def run(cx):
         ob.count(sum(x.evals for x in w))
         bad = [v for x in w for v in x.violations]
         ob.require(len(w) == 2 and not bad, "router/handler-of-route", "a route can end up paired with another route's handler: " + "; ".join(str(v.msg) for v in bad)[:300], "anemo::routing::Router")
+
+    with cx.ob("C02.10", "R-SHAPE", "one layer out: every tower Layer of the anemo crate (the boxed per-method layer of generated servers, the timeout and extension layers) wraps the service it is given - layer() builds its result directly around `inner` on every call, so a handler is never replaced by one built for another route") as ob:
+        lbs = [b_ for b_ in prog.bodies.values() if b_.crate == "anemo" and "tower_layer::Layer" in b_.path and b_.path.endswith(">::layer")]
+        ob.floor(lbs, 4, "Layer impls in the anemo crate")
+        for lb in lbs:
+            t = strip_identity(Origins(lb).of_local(0))
+            alts = list(t[1]) if t[0] == "phi" else [t]
+            def wraps(a_):
+                a_ = strip_identity(a_)
+                if a_[0] == "agg":
+                    return any(is_param(strip_identity(x_), "inner") for x_ in a_[3])
+                if a_[0] == "call":
+                    return any(is_param(strip_identity(x_), "inner") for x_ in a_[2]) and (a_[1].endswith("::new") or name_matches(a_[1], "tower_layer::Layer::layer"))
+                return False
+            ob.require(all(wraps(a_) for a_ in alts), f"layer-wraps-inner/{lb.path.split(' as ')[0].lstrip('<').split('<')[0].split('::')[-1]}",
+                       f"{lb.path} returns {show(t)[:140]} - not (always) a service built around the `inner` it was given", lb.path)
+
